@@ -434,6 +434,17 @@ def gen_cases(rng, tier):
                 c = finish(name, 400, mb, 0, head, ("refuse", (413,) if "over" in name else (400,)), len(head),
                            tail=b"z" * 500, recv=rng.choice([1, 64, 10 ** 9]), tags={"expect_at_head": True})
                 yield c
+                # ... and the same request pipelined behind delivered ones, whole and
+                # cut: parsed while requests are queued, the interim response is
+                # withheld and the request keeps its expect flag up to the refusal
+                for prefix_n in (1, 2):
+                    if mb < 100:
+                        continue
+                    for recv in (10 ** 9, 4096, 64, rng.choice([1, 7])):
+                        yield finish(name + "-pipelined", 400, mb, prefix_n, head,
+                                     ("refuse", (413,) if "over" in name else (400,)), len(head),
+                                     tail=b"GET /smuggled HTTP/1.1\r\nHost: h\r\n\r\n" + b"z" * 100, recv=recv,
+                                     tags={"expect_at_head": True})
 
 
 def gen_generic(rng, n):
